@@ -59,6 +59,12 @@ ae28e34 C03 C03.nullwidth thorough
 b76b929 C14 C14.rollback
 13bb510 C05 C05.nanbounds
 8993130 C03 C03.stride
+14621d3 C17 C17.reset
+d0a531d C08 C08.slicekeep
+38200dd C08 C08.slicekeep
+b6c22a4 C08 C08.coherence
+f53f4fe C17 C17.regrow
+5768bef C03 C03.loopfresh
 LIST
 git -C /repo worktree remove --force $WT
 rm -rf /tmp/fixcheck-ev
